@@ -18,7 +18,7 @@
    normalised there (interval 0, no out-of-memory events: it does not influence
    the behaviour). *)
 From Coq Require Import Lia.
-From Torf Require Import Base Pipeline PipelineProofs FlowProofs ThreadProofs PipeExplore PipeExploreProofs NormProofs PipeConfigs.
+From Torf Require Import Base Pipeline PipelineProofs FlowProofs ThreadProofs DeadlockProofs PipeExplore PipeExploreProofs NormProofs PipeConfigs.
 Open Scope Z_scope.
 
 (* soundness of the exploration: what the checker accepts holds for every reachable state *)
@@ -48,6 +48,17 @@ Theorem C03_no_worker_left_unbounded : forall c s,
   running_threads c s = [].
 Proof. exact no_worker_left. Qed.
 Print Assumptions C03_no_worker_left_unbounded.
+
+(* UNBOUNDED: no schedule deadlocks.  In every state reachable under any schedule -- any number of hashers and
+   pieces, any callback plan, read fault, refused additional hasher, any clock -- some thread can take a step as
+   long as the call has not returned.  Invariants (proofs/DeadlockProofs.v): the end-of-stream token of the piece
+   queue is unique and last (a hasher that wants to put it back finds the queue empty), the vital hasher works
+   as long as the reader does, the hash queue holds its end marker from the moment the janitor has ended until
+   the collector takes it, main only waits for hashers it has seen alive. *)
+Theorem C03_no_deadlock_unbounded : forall c s,
+  (1 <= cf_hashers c)%nat -> reach c s -> s_mdone s = false -> options c s <> [].
+Proof. exact no_deadlock. Qed.
+Print Assumptions C03_no_deadlock_unbounded.
 
 (* reading goodb *)
 Theorem C03_no_deadlock : forall c ref mf rs s,
